@@ -1,8 +1,10 @@
 pub mod c01;
+pub mod c02;
 pub mod c03;
 pub mod c04;
 pub mod c05;
 pub mod c06;
+pub mod c07;
 pub mod c10;
 pub mod c11;
 pub mod c12;
@@ -14,10 +16,12 @@ use serde_json::Value;
 pub fn run(ctx: &mut Ctx, id: &str) -> bool {
     match id {
         "C01" => c01::run(ctx),
+        "C02" => c02::run(ctx),
         "C03" => c03::run_c03(ctx),
         "C04" => c04::run(ctx),
         "C05" => c05::run(ctx),
         "C06" => c06::run(ctx),
+        "C07" => c07::run(ctx),
         "C09" => c03::run_c09(ctx),
         "C10" => c10::run(ctx),
         "C11" => c11::run(ctx),
@@ -31,10 +35,12 @@ pub fn run(ctx: &mut Ctx, id: &str) -> bool {
 pub fn replay(ctx: &Ctx, id: &str, label: &str, case: Value) -> Result<(), String> {
     match id {
         "C01" => c01::replay(ctx, label, case),
+        "C02" => c02::replay(ctx, label, case),
         "C03" => c03::replay(ctx, label, case, c03::Side::Acyclic),
         "C04" => c04::replay(ctx, label, case),
         "C05" => c05::replay(ctx, label, case),
         "C06" => c06::replay(ctx, label, case),
+        "C07" => c07::replay(ctx, label, case),
         "C09" => c03::replay(ctx, label, case, c03::Side::Cyclic),
         "C10" => c10::replay(ctx, label, case),
         "C11" => c11::replay(ctx, label, case),
